@@ -1217,6 +1217,70 @@ fn run_filed(p: &[&str]) -> String {
     }
 }
 
+// ---- generic array writers: `write_array` / `<&ReadArray>::write` / `ReadArrayCow::write` on packed and
+// strided arrays, and whole tables that hold one (hmtx bearings, cvt)
+//   arr|TY|N|STRIDE|HEX  TY = u8 | i8 | u16 | i16 | u32 ; STRIDE 0 = packed (read_array)
+//   -> r=<items as read>;w=<bytes write_array wrote>;c=<bytes ReadArrayCow::write wrote>;r2=<items read back packed>
+fn run_arr(p: &[&str]) -> String {
+    fn go<T>(n: usize, stride: usize, d: &[u8]) -> String
+    where
+        T: allsorts::binary::read::ReadUnchecked + WriteBinary<<T as allsorts::binary::read::ReadUnchecked>::HostType>,
+        T::HostType: Copy + std::fmt::Display,
+    {
+        let mut c = ReadScope::new(d).ctxt();
+        let arr = match if stride == 0 { c.read_array::<T>(n) } else { c.read_array_stride::<T>(n, stride) } {
+            Ok(a) => a,
+            Err(e) => return format!("r=err:{}", perr(&e)),
+        };
+        let items: Vec<String> = arr.iter().map(|x| x.to_string()).collect();
+        let mut w = WriteBuffer::new();
+        let wr = w.write_array(&arr).map(|_| hex(w.bytes())).unwrap_or_else(|e| format!("err:{}", werr(&e)));
+        let r2 = match ReadScope::new(w.bytes()).ctxt().read_array::<T>(n) {
+            Ok(a) => join(&a.iter().map(|x| x.to_string()).collect::<Vec<_>>()),
+            Err(e) => format!("err:{}", perr(&e)),
+        };
+        // the borrowed Cow writer consumes the array
+        let mut w2 = WriteBuffer::new();
+        let cow = ReadArrayCow::Borrowed(arr);
+        let cr = ReadArrayCow::write(&mut w2, &cow).map(|_| hex(w2.bytes())).unwrap_or_else(|e| format!("err:{}", werr(&e)));
+        format!("r={};w={};c={};r2={}", join(&items), wr, cr, r2)
+    }
+    let n: usize = p[2].parse().unwrap();
+    let stride: usize = p[3].parse().unwrap();
+    let d = unhex(p[4]);
+    match p[1] {
+        "u8" => go::<allsorts::binary::U8>(n, stride, &d),
+        "i8" => go::<allsorts::binary::I8>(n, stride, &d),
+        "u16" => go::<U16Be>(n, stride, &d),
+        "i16" => go::<allsorts::binary::I16Be>(n, stride, &d),
+        "u32" => go::<allsorts::binary::U32Be>(n, stride, &d),
+        _ => panic!("arr type"),
+    }
+}
+
+fn gen_arr(rng: &mut Rng) -> String {
+    let (ty, size) = *rng.pick(&[("u8", 1usize), ("i8", 1), ("u16", 2), ("i16", 2), ("u32", 4)]);
+    let n = match rng.below(6) {
+        0 => 0,
+        1 => 1,
+        _ => 1 + rng.below(9) as usize,
+    };
+    // packed, stride = size, stride > size (the padding holds other data), rarely stride < size
+    let stride = match rng.below(8) {
+        0 | 1 => 0,
+        2 => size,
+        7 => size.saturating_sub(1),
+        _ => size + 1 + rng.below(7) as usize,
+    };
+    let need = if stride == 0 { n * size } else { n * stride };
+    let len = match rng.below(8) {
+        0 => need.saturating_sub(1 + rng.below(3) as usize),
+        1 => need + rng.below(5) as usize,
+        _ => need,
+    };
+    format!("arr|{}|{}|{}|{}", ty, n, stride, hex(&rng.bytes(len)))
+}
+
 fn run(input: &str) -> String {
     let p: Vec<&str> = input.split('|').collect();
     let res = catch_unwind(AssertUnwindSafe(|| match p[0] {
@@ -1241,6 +1305,7 @@ fn run(input: &str) -> String {
         "dict" => run_dict(&p),
         "dictw" => run_dictw(&p),
         "filed" => run_filed(&p),
+        "arr" => run_arr(&p),
         "cg" => gc::run_cg(&p),
         "cms" => gc::run_cms(&p),
         "cmsrd" => gc::run_cmsrd(&p),
@@ -1697,6 +1762,9 @@ fn gen_dict(rng: &mut Rng) -> String {
 
 fn gen(rng: &mut Rng) -> String {
     // composite glyphs and cmap: 24% of the cases
+    if rng.chance(1, 25) {
+        return gen_arr(rng);
+    }
     let k = rng.below(100);
     if k < 24 {
         let mode = build_mode();
